@@ -66,6 +66,41 @@ def gen_scenario(rng):
     return lines
 
 
+def gen_add_race(rng):
+    """a signal is added through a handle while deliveries of that very signal are in progress on other threads:
+    a delivery that runs the new action in the window between its publication in the registry and whatever
+    `add_signal` still does afterwards must find everything it needs in place (C03: nothing is allocated inside a
+    delivery; C10: the record is handed out once)"""
+    watch = rng.sample(SIGS, rng.randint(1, 2))
+    new = rng.choice([15, 17])
+    lines = ["setup watch " + " ".join(str(x) for x in watch), "setup style " + rng.choice("AB"), "t0 add %d" % new]
+    tid = 1
+    for _ in range(rng.randint(1, 3)):
+        for _ in range(rng.randint(2, 5)):
+            lines.append("t%d deliver %d" % (tid, new))
+        tid += 1
+    for _ in range(rng.randint(2, 5)):
+        lines.append("t%d %s" % (tid, "pending" if lines[1].endswith("A") else "poll"))
+    lines.append("seed %d" % rng.randint(1, 2**31))
+    lines.append("maxsteps 20000")
+    return lines
+
+
+def monitor_c03(r):
+    """nothing is allocated or freed inside a delivery (counted by the harness's allocator wrapper)"""
+    probs = []
+    if r["status"].startswith("END crash rc=-"):
+        # the process running the real code was killed by a signal (an abort from a panic that cannot unwind out of
+        # the handler, a segmentation fault): a concrete failing schedule whatever else it is
+        probs.append("the process running the real iterator under this scenario was killed by signal %s (%s)" % (
+            r["status"].split("rc=-")[1].split()[0], " ".join(r["status"].split()[3:])[:160]))
+    for i, l in enumerate(r["impl"]):
+        if "HEAP-IN-HANDLER" in l:
+            w = l.split()
+            probs.append("line %d: the delivery on %s performed %s heap allocation/release operation(s) inside the signal handler (info-carrying exfiltrator)" % (i, w[0], w[-1]))
+    return probs
+
+
 def run_one(scenario):
     text = "\n".join(scenario) + "\n"
     rc, out, err = core.run_harness("iterq", text, timeout=20)
@@ -85,7 +120,7 @@ LINE = re.compile(r"^t(\d+) (H )?(.*)$")
 
 def monitors(r):
     """C09 (no stranded record) and C10 (every yield is one delivered record, once)"""
-    probs = {"C09": [], "C10": []}
+    probs = {"C09": [], "C10": [], "C03": monitor_c03(r)}
     started = {}        # id -> sig
     completed = {}      # id -> line index of its `ret done`
     yielded = {}        # id -> line index
